@@ -1095,6 +1095,52 @@ def _seq_case(rng):
     return {'op': 'seq', 'runs': runs, '_decoy': rng.random() < 0.5}
 
 
+
+def _crossed_case(rng, op, tb=None, trunc_kind=None):
+    """truncation (count or fraction) x binding min_count x non-zero bottom_value x unscored_value x partial ballots, all at once"""
+    m = rng.randint(3, 5)
+    grades = rng.choice([(1, 2, 2, 3), (0, 1, 2, 3, 4, 5), (2, 3, 4)])
+    votes, seen = [], set()
+    for i in range(rng.randint(4, 6)):
+        k = rng.randint(1, m - 1) if i == 0 else rng.randint(1, m)
+        cs = sorted(rng.sample(range(m), k))
+        b = tuple((c, str(rng.choice(grades))) for c in cs)
+        if b in seen:
+            continue
+        seen.add(b)
+        votes.append([[list(x) for x in b], rng.randint(1, 4)])
+    given = {}
+    for b, w in votes:
+        for c, _ in b:
+            given[c] = given.get(c, 0) + w
+    c = {'op': op, 'votes': votes, 'n': rng.randint(1, len(given))}
+    trunc_kind = trunc_kind or rng.choice(['count', 'frac'])
+    c['truncation'] = rng.choice(['1', '1', '2']) if trunc_kind == 'count' else rng.choice(['1/10', '1/5', '1/4', '1/3'])
+    c['min_count'] = min(given.values()) + rng.choice([1, 1, 2])
+    c['bottom'] = rng.choice(['1', '-1', '2'])
+    c['unscored'] = rng.choice(['0', '1', 'min'] if op != 'star' else ['0', '1'])
+    if op in ('score', 'score_agg'):
+        c['function'] = rng.choice(FUNCTIONS)
+    if op == 'mj':
+        c['tie_breaking'] = tb or rng.choice(['default', 'plus'])
+    if op == 'star':
+        c['added_count'] = rng.choice([1, 1, 2])
+        c['added_fraction'] = rng.choice(['0', '1/2'])
+    return c
+
+
+def _crossed_seq(rng, op, tb=None):
+    base = _crossed_case(rng, op, tb)
+    runs = [base]
+    for _ in range(rng.randint(1, 2)):
+        r = _crossed_case(rng, op, tb)
+        for k in ('truncation', 'min_count', 'bottom', 'unscored', 'function', 'tie_breaking', 'added_count', 'added_fraction'):
+            if k in base:
+                r[k] = base[k]
+        runs.append(r)
+    return {'op': 'seq', 'runs': runs, '_decoy': rng.random() < 0.5}
+
+
 DIRECTED = [
     # PAV: the witness of fix c5ab27b (one seat on a fresh instance), a tie, call sequences around a two-seat call
     {'op': 'pav', 'votes': [[[0, 1], '3'], [[2], '2']], 'n': 1},
@@ -1221,6 +1267,18 @@ def _raw_generate(rng, tier):
                     continue
             c['_tags'] = ['star_sens_search']
             yield c
+    # every correction at once, also on shared long-lived instances (seeded changes C12i / C18i)
+    for op, tb in (('score', None), ('score_agg', None), ('mj', 'default'), ('mj', 'plus'), ('star', None)):
+        for tk in ('count', 'frac'):
+            for _ in range(45 if q else 500):
+                c = _crossed_case(rng, op, tb, tk)
+                c['_tags'] = ['crossed']
+                yield c
+        if op != 'score_agg':
+            for _ in range(40 if q else 400):
+                c = _crossed_seq(rng, op, tb)
+                c['_tags'] = ['crossed']
+                yield c
     for complete in (True, False):
         for _ in range(150 if q else 2000):
             c = _mj_shared_median_case(rng, complete)
@@ -1293,6 +1351,9 @@ def _tag(case):
     if op == 'seq':
         sub = case['runs'][0]['op']
         tags.append('seq_' + sub)
+        if 'crossed' in tags:
+            r0 = case['runs'][0]
+            tags.append('cross_seq_' + sub + ('_' + r0['tie_breaking'] if sub == 'mj' else ''))
         if case.get('_decoy'):
             tags.append('seq_decoy_first')
         sizes = [sum(len(b) for b, _ in r['votes']) for r in case['runs']]
@@ -1378,6 +1439,9 @@ def _tag(case):
                     tags.append('sens_' + param)
             except Exception:      # noqa
                 pass
+    if 'crossed' in tags:
+        tk = 'count' if Fraction(case['truncation']) >= 1 else 'frac'
+        tags.append('cross_' + op + ('_' + case['tie_breaking'] if op == 'mj' else '') + '_' + tk)
     if op in ('score_agg', 'score', 'mj', 'star'):
         fn = case.get('function', 'median_low' if op == 'mj' else 'sum')
         agg, corr = ref_aggregate(prof, case, fn)
@@ -1498,6 +1562,11 @@ REQUIRED_COUNTERS = ['pav_unique', 'pav_refusal', 'pav_one_seat', 'pav_one_seat_
                      # state between calls
                      'seq_spav', 'seq_score', 'seq_mj', 'seq_star', 'seq_allocated', 'seq_decoy_first', 'seq_larger_then_smaller',
                      'seq_after_error',
+                     # all corrections crossed (truncation kind x binding min_count x bottom x unscored x partial), also on shared objects
+                     'cross_score_count', 'cross_score_frac', 'cross_score_agg_count', 'cross_score_agg_frac',
+                     'cross_mj_default_count', 'cross_mj_default_frac', 'cross_mj_plus_count', 'cross_mj_plus_frac',
+                     'cross_star_count', 'cross_star_frac',
+                     'cross_seq_score', 'cross_seq_mj_default', 'cross_seq_mj_plus', 'cross_seq_star',
                      # every constructor parameter changes an outcome
                      'sens_unscored', 'sens_min_count', 'sens_truncation', 'sens_bottom', 'sens_function', 'sens_tie_breaking',
                      'sens_added_count', 'sens_added_fraction', 'sens_quota']
@@ -1572,23 +1641,24 @@ REQUIRED = ['pav_eq_spec', 'pavSpec_some_iff', 'pav_returns_iff_unique_maximiser
             'spav_eq_spec', 'spav_round_argmax', 'spav_error_is_tie',
             'score_aggregate_eq_spec', 'mj_median_is_lower_median', 'score_mean_exact', 'score_eq_spec',
             'score_truncation_eq_spec', 'score_unscored_eq_spec', 'score_min_count_eq_spec',
-            'mj_elects_highest_medians', 'mj_default_eq_spec', 'mj_median_stable_below_closest_change', 'star_runoff_pairwise', 'star_eq_schulze_of_runoff',
-            'allocated_spends_one_quota', 'allocated_fraction_out_spec', 'allocated_eq_spec', 'allocatedSelector_eq_weighted', 'allocated_tie_places_fixed',
+            'mj_elects_highest_medians', 'mj_fuel_adequate', 'mj_default_eq_spec', 'mj_corrected_scores_wf',
+            'mj_never_out_of_fuel', 'mj_evaluator_tiebreak_eq_spec', 'mj_median_stable_below_closest_change', 'star_runoff_pairwise', 'star_eq_schulze_of_runoff',
+            'allocated_spends_one_quota', 'allocated_fraction_out_spec', 'allocated_eq_spec', 'allocatedSelector_eq_weighted', 'allocated_tied_leaders', 'allocated_report_tie',
+            'allocated_elect_all_tied', 'allocated_tie_order_witness', 'allocated_tie_places_fixed',
             'star_members_spec', 'star_member_matrix', 'star_two_finalists',
             'star_single_runoff_fixed', 'star_boundary_tie_fixed', 'star_member_dropped_fixed',
             'mj_default_tiebreak_witness', 'mj_default_tiebreak_scale_witness', 'allocated_empty_ballot_fixed',
             'allocated_ballots_exhausted_refused', 'allocated_spending_never_raises']
 
 UNPROVED = [
-    'mj_fuel_adequate: that the model of `_tiebreak_default` never exhausts the fuel the driver passes (Σ counts + #candidates + 1); '
-    'mj_default_eq_spec is stated for every outcome other than the fuel error, which the correspondence never observes',
     'schulze_correct: that the Schulze evaluator called for run-offs of more than two finalists ranks by true beatpath strength '
     'is C05 territory; for STAR it is proved that the evaluator is called on exactly the member matrix (star_eq_schulze_of_runoff, '
     'star_members_spec, star_member_matrix) and that two finalists are decided by pairwise majority (star_two_finalists)',
-    'allocated score outside the domain of allocated_eq_spec: rounds with tied leaders (the elect-all / report-tie branches, '
-    'order dependent: open finding); proved: equality with the round-by-round definition on every profile where each round has a '
-    'strict winner (allocated_eq_spec; ballots grading nobody any more are harmless, exhaustion is the declared refusal), and '
-    'the exact quota spending of every seat',
+    'allocated score after an elect-all round: the ballot state the loop continues with depends on the order in which the tied '
+    'leaders quotas are spent (FALSE as a function of the election: allocated_tie_order_witness, open finding '
+    'C12-allocated-score-tie-order); proved order-independently: who the tied leaders are, that the tie is reported when the '
+    'seats do not suffice, that all of them are elected when they do (allocated_tied_leaders / _report_tie / _elect_all_tied), '
+    'and the whole loop on profiles where every round has a strict winner (allocated_eq_spec)',
 ]
 NOT_VERIFIED = [
     'iteration order of a Python set of candidates (Tie, frozenset) is modelled as ascending candidate id; the harness uses '
